@@ -887,7 +887,8 @@ pub fn generate(kind: &str, tier: &str, seed: u64, shard: u64, nshards: u64, pat
             for r in 0..share(pl.big) {
                 let mut run = Run::new(&t, "fixed", true);
                 let sizes: &[usize] = if tier == "thorough" { &[16777215, 1 << 20, 16777214, 65536 * 3 + 1] } else { &[16777215, 300000] };
-                let cs = *rng.pick(&[65536u32, 1 << 20, 0x7FFFFFFF, 4096 * 16]);
+                // the first run of every shard uses the largest legal chunk size (a 16 MiB message in ONE chunk)
+                let cs = if r == 0 { 0x7FFFFFFF } else { *rng.pick(&[65536u32, 1 << 20, 0x7FFFFFFF, 4096 * 16, 16777215, 16777216]) };
                 let mut steps = vec![SerStep { m: M { ty: 1, msid: 0, ts: 0, data: cs.to_be_bytes().to_vec() }, fu: true, cd: false, setcs: Some(cs) }];
                 for (i, &sz) in sizes.iter().enumerate() {
                     let mut d = vec![(r * 7 + i) as u8; sz];
